@@ -234,10 +234,22 @@ class CompressedArray(Array):
 
         """
         ndim = self.ndim
-        for index in (slice(0, 1, 1), slice(-1, None, 1)):
-            if indices == (index,) * ndim:
-                data = self.source()
-                return np.asanyarray(data[(index,) * data.ndim])
+        if (
+            isinstance(indices, tuple)
+            and len(indices) == ndim
+            and all(isinstance(i, slice) for i in indices)
+        ):
+            # Only compare tuples of slices: comparing a numpy array
+            # index with a slice is element-wise and has no truth
+            # value
+            for index in (slice(0, 1, 1), slice(-1, None, 1)):
+                if indices == (index,) * ndim:
+                    data = self.source()
+                    element = np.asanyarray(data[(index,) * data.ndim])
+                    # The compressed array may have fewer dimensions
+                    # than the uncompressed array (e.g. bounds tie
+                    # points)
+                    return element.reshape((1,) * ndim)
 
         # Indices do not acceptably select the first nor last element
         raise IndexError()
